@@ -83,6 +83,23 @@ def run(ctx, info):
                 **{k: v for k, v in info.get("regen", {}).items() if k.startswith("gen_cont") or k.startswith("gen_disc") or k.startswith("gen_perm")}}
     r = ctx.rng
     items, metas = [], []
+    # malformed stream: multi-variables whose bound lists differ in length (incl. 1 against n and 0 against 1) must be rejected at construction; if one is accepted the
+    # task built on it must still be self-consistent (it cannot be: that is the violation)
+    from pyvolutionary import ContinuousMultiVariable, MultiObjectiveVariable
+    from ..harness import DummyTask
+    for cls_ in (ContinuousMultiVariable, MultiObjectiveVariable):
+        for lo_, hi_ in (([-5.0, -3.0, 0.0], [10.0]), ([0.0], [1.0, 2.0, 3.0]), ([], [1.0]), ([0.0, 0.0], [1.0, 1.0, 1.0]), ([0.0, 0.0, 0.0], [1.0, 1.0])):
+            try:
+                v_ = cls_(name="m", lower_bounds=lo_, upper_bounds=hi_)
+            except Exception:
+                continue
+            try:
+                t_ = DummyTask(variables=[v_]); lb_, ub_ = t_.get_bounds()
+                desc = f"dimension {t_.space_dimension}, {len(lb_)} lower / {len(ub_)} upper bounds, {len(t_.get_variables())} flattened variables, {len(t_.empty_solution())} coordinates drawn"
+            except Exception as ex_:
+                desc = f"the task then raises {type(ex_).__name__}"
+            ctx.violation("mismatched-bounds-accepted", f"{cls_.__name__}(lower_bounds={lo_}, upper_bounds={hi_}) is accepted; the task built on it is inconsistent: {desc}",
+                          {"task": [[cls_.__name__, [lo_, hi_]]]})
     n_tasks = 350 if ctx.quick else 8000
     shapes = {}
     for _ in range(n_tasks):
